@@ -1,4 +1,4 @@
-// C05 — target merge_iters: RecS, stable entry points, (input iterator kind, output iterator kind) pairs 0..3, owning comparator
+// C05 — target merge_iters: RecS, stable entry points, four (input iterator kind, output iterator kind) pairs (IT_PAIR_OF_TYPE), owning comparator
 #include "C05_merge.hpp"
 
 namespace c05 {
